@@ -20,6 +20,12 @@ PHASES = ["pake", "version", "0"]
 BODIES = ["", "00", "c0ffee", "é世\U0001f600", "a\u0000b"]
 MOODS = ["happy", "lonely", "scary", "errory", "weird", ""]
 IDS = ["i1", "i2", "ü"]
+# unusual but valid identifiers ("string-valued identifiers of any Unicode content"; no lone surrogates:
+# those are outside the properties' domain).  Used with probability Profile.p_odd wherever a client
+# supplies a string: non-NFC spellings next to their NFC forms, empty, NUL, non-BMP, numeric-looking,
+# very long, differing only by case or by a trailing space.
+ODD = ["cafe\u0301", "caf\u00e9", "\u212b", "\u00c5", "\uf900", "\u8c48", "", "a\u0000b", "\U0001F600",
+       "007", "1e3", " 1", "1 ", "x" * 300, "Ab", "ab", "ab "]
 
 
 class Profile(object):
@@ -41,6 +47,10 @@ class Profile(object):
         self.names = NAMES
         self.mboxes = MBOXES
         self.final_quiesce = True  # end with: disconnect all, run the timer past EXP + 2*PERIOD
+        self.p_repeat = 0.0        # of malformed commands: a complete, well-formed command sent out of order / a second time
+        self.script = None         # scripted stream (scripts.py) instead of the random walk
+        self.p_odd = 0.0           # probability of an unusual string (ODD) wherever the client supplies one
+        self.p_restart_after_retire = 0.0   # restart right after a command that retired a nameplate (C03: reincarnation)
         self.__dict__.update(kw)
 
 
@@ -113,8 +123,17 @@ class Session(object):
         return o
 
     # ---------------------------------------------------------------- choices
+    def maybe_odd(self, scale=1.0):
+        """an unusual string, with probability p_odd*scale (no PRNG draw at all when p_odd is 0)"""
+        if self.p.p_odd and self.rng.random() < self.p.p_odd * scale:
+            return self.rng.choice(ODD)
+        return None
+
     def pick_mailbox(self, info):
         r = self.rng
+        o = self.maybe_odd()
+        if o is not None:
+            return o
         cands = list(self.p.mboxes)
         cands += self.learned.get(info["app"], [])
         if info.get("claimed_mailbox") and r.random() < 0.6:
@@ -128,6 +147,9 @@ class Session(object):
 
     def pick_name(self, info):
         r = self.rng
+        o = self.maybe_odd()
+        if o is not None:
+            return o
         if info.get("allocated") and r.random() < 0.5:
             return info["allocated"]
         al = self.allocated.get(info["app"], [])
@@ -140,6 +162,9 @@ class Session(object):
             msg["x-" + self.rng.choice(["junk", "side", "appid"])] = self.rng.choice([1, "v", None, [1, 2], {"a": 1}])
         if self.rng.random() < 0.3 and "id" not in msg:
             msg["id"] = self.rng.choice(IDS + [None])
+            o = self.maybe_odd()
+            if o is not None:
+                msg["id"] = o
         return msg
 
     def sensible_cmd(self, c, info):
@@ -147,6 +172,7 @@ class Session(object):
         r = self.rng
         if info.get("app") is None:
             msg = {"type": "bind", "appid": r.choice(APPS[:self.p.n_apps]), "side": r.choice(SIDES[:self.p.n_sides])}
+            self.odd_bind(msg)
             x = r.random()
             if x < 0.3:
                 msg["client_version"] = ["python", "0.12." + str(r.randrange(3))]
@@ -187,6 +213,12 @@ class Session(object):
         elif kind == "add":
             msg["phase"] = r.choice(PHASES)
             msg["body"] = r.choice(BODIES)
+            o = self.maybe_odd()
+            if o is not None:
+                msg["phase"] = o
+            o = self.maybe_odd()
+            if o is not None:
+                msg["body"] = o
             if r.random() < 0.2:
                 msg["side"] = "bogus"   # must be ignored: the bind's side is stamped
         elif kind == "close":
@@ -198,6 +230,9 @@ class Session(object):
             y = r.random()
             if y < 0.7:
                 msg["mood"] = r.choice(MOODS)
+                o = self.maybe_odd()
+                if o is not None:
+                    msg["mood"] = o
             elif y < 0.8:
                 msg["mood"] = None
         elif kind == "ping":
@@ -205,10 +240,23 @@ class Session(object):
         elif kind == "bind":
             msg["appid"] = r.choice(APPS[:self.p.n_apps])
             msg["side"] = r.choice(SIDES[:self.p.n_sides])
+            self.odd_bind(msg)
         return msg
+
+    def odd_bind(self, msg):
+        o = self.maybe_odd(0.5)
+        if o is not None:
+            msg["side"] = o
+        o = self.maybe_odd(0.25)
+        if o is not None:
+            msg["appid"] = o
 
     def malformed_cmd(self, c, info):
         r = self.rng
+        if self.p.p_repeat and r.random() < self.p.p_repeat:
+            # all fields present: erroneous only because of the connection's state (C17)
+            kind = r.choice(["bind", "allocate", "claim", "release", "open", "open", "close", "add"])
+            return self.make_cmd(kind, info, wellformed=False)
         x = r.random()
         if x < 0.15:
             return {"id": "noty"}                      # no type
@@ -320,6 +368,9 @@ class Session(object):
         base = ev["e"] if ev["k"] == "crash" else ev
         if base["k"] == "cmd" and ev["k"] != "crash":
             self.note_cmd(base["c"], base["msg"], o)
+            if p.p_restart_after_retire and len(o["chan"]["np"]) < len(self.obs[-2]["chan"]["np"]) \
+               and r.random() < p.p_restart_after_retire:
+                return self.emit({"k": "restart"})     # the retired nameplate's name is claimed again later on
         return o
 
     def quiesce(self):
@@ -333,6 +384,12 @@ class Session(object):
             self.emit({"k": "advance", "dt": P, "fault": False})
 
     def generate(self):
+        if self.p.script:
+            import scripts
+            scripts.run(self.p.script, self)
+            if self.p.final_quiesce:
+                self.quiesce()
+            return self.events, self.obs, self.lines
         n = self.rng.randrange(self.p.length[0], self.p.length[1] + 1)
         for i in range(n):
             self.step()
